@@ -27,6 +27,7 @@ CLAUSE_OF = {
                    "it and was not refused with 0x93"),
     "P14": ("C11", "a PUBLISH whose identifier was still in use reached a handler"),
     "P15": ("C18", "a SUBSCRIBE / UNSUBSCRIBE carrying a malformed topic filter reached the protocol service"),
+    "P16": ("C04", "a response was written after the response to a later request"),
     "P9": ("C17", "a handler saw a topic that is not the latest binding of the alias used"),
 }
 # recorded findings that the scan can hit (see known_findings.json)
@@ -298,6 +299,64 @@ def p15(v, case, obs):
     return []
 
 
+RESP_OF = {1: None, 4: 0x70, 6: 0x90, 7: 0xB0, 8: 0xD0}
+
+
+def p16(v, case, obs):
+    """C04 at connection level: the responses the peer receives are in the order of the requests they answer.
+    Requests: PUBLISH QoS 1 -> PUBACK, QoS 2 -> PUBREC, PUBREL -> PUBCOMP, SUBSCRIBE -> SUBACK, UNSUBSCRIBE ->
+    UNSUBACK, PINGREQ -> PINGRESP.  Only cases in which every (response type, id) is requested once (PINGREQ
+    may repeat: matched first-in first-out); the immediate 'identifier in use' answers (reason 0x91) do not go
+    through the response queue and are left out."""
+    if obs == "9999":
+        return []
+    fields = [[int(t) for t in f.split(",")] for f in case.split(";")]
+    ops = fields[1:]
+    of = obs.split(";")
+    if len(of) != len(ops):
+        return []
+    reqs = []            # (key, arrival index)
+    keys = set()
+    for n, op in enumerate(ops):
+        if op[0] != 1:
+            continue
+        key = None
+        if op[1] == 1 and len(op) >= 8 and op[2] in (1, 2):
+            key = (0x40 if op[2] == 1 else 0x50, op[3])
+        elif op[1] in (4, 6, 7) and len(op) >= 3:
+            key = (RESP_OF[op[1]], op[2])
+        elif op[1] == 8:
+            key = (0xD0, 0)
+        if key is None:
+            continue
+        if key[0] != 0xD0:
+            if key in keys:
+                return []
+            keys.add(key)
+        reqs.append((key, n))
+    pending = list(reqs)
+    last = -1
+    for n, f in enumerate(of):
+        try:
+            wire, hs, ps, stop1, nstop, is_open = I.parse_obs(f)
+        except ValueError:
+            return []
+        for (t, pid, r) in wire:
+            if t not in (0x40, 0x50, 0x70, 0x90, 0xB0, 0xD0) or r == 0x91:
+                continue
+            key = (t, pid if t != 0xD0 else 0)
+            k = next((j for j, (kk, _) in enumerate(pending) if kk == key), None)
+            if k is None:
+                continue
+            idx = pending[k][1]
+            del pending[k]
+            if idx < last:
+                return ["P16 the response %#x id %d (request at op %d) was written after the response to a later "
+                        "request (op %d)" % (t, pid, idx + 1, last + 1)]
+            last = idx
+    return []
+
+
 class InbPart(Part):
     SHRINK_FIELDS_FIRST = True
     SHRINK_FIELDS_ONLY = True
@@ -326,6 +385,8 @@ class InbPart(Part):
             bad = bad + p14(self.ver, case, obs)
         if "C18" in self.want and self.engine.startswith("inb"):
             bad = bad + p15(self.ver, case, obs)
+        if "C04" in self.want and self.engine.startswith("inb"):
+            bad = bad + p16(self.ver, case, obs)
         elif "C12" in self.want and self.engine == "inb5":
             # receive maximum: 0x93 for a peer within its quota, or another code for a peer over it
             bad = bad + [b.replace("P12 ", "P13 ") for b in p12(self.ver, case, obs) if "147" in b]
